@@ -17,6 +17,9 @@ type C07Case struct {
 	C    *V     `json:"c,omitempty"`
 	Rel  string `json:"rel"`  // how B was derived from A
 	Rel2 string `json:"rel2"` // how C was derived from B
+	// Share: equal non-empty container subtrees of A are stored as ONE instance (a DAG); the generator
+	// then duplicates a container child of A so that such subtrees exist
+	Share bool `json:"share,omitempty"`
 }
 
 func equalityTreeCfg() TreeCfg {
@@ -195,8 +198,35 @@ func GenC07(t *rapid.T) *C07Case {
 			a.O = append(a.O, Pair{"chain", inner})
 		}
 	}
+	share := false
+	if oneIn(t, 5, "share") {
+		// duplicate one container child so that the same content occurs twice
+		var kids []V
+		if a.K == KList {
+			for _, e := range a.L {
+				if (e.K == KList && len(e.L) > 0) || (e.K == KObject && len(e.O) > 0) {
+					kids = append(kids, e)
+				}
+			}
+		} else {
+			for _, p := range a.O {
+				if (p.V.K == KList && len(p.V.L) > 0) || (p.V.K == KObject && len(p.V.O) > 0) {
+					kids = append(kids, p.V)
+				}
+			}
+		}
+		if len(kids) > 0 {
+			dup := kids[drawIdx(t, len(kids), "dup")].Clone()
+			if a.K == KList {
+				a.L = append(a.L, dup)
+			} else if _, taken := a.Field("dup"); !taken {
+				a.O = append(a.O, Pair{"dup", dup})
+			}
+			share = true
+		}
+	}
 	b, rel := deriveEq(t, a, cfg)
-	c := &C07Case{A: a, B: b, Rel: rel}
+	c := &C07Case{A: a, B: b, Rel: rel, Share: share}
 	if oneIn(t, 3, "triple") {
 		cc, rel2 := deriveEq(t, b, cfg)
 		if oneIn(t, 3, "tcopy") {
@@ -234,7 +264,12 @@ func CheckC07(c *C07Case, st *Stats) error {
 	impl := make([]any, len(trees))
 	before := make([]IdentSnap, len(trees))
 	for i, v := range trees {
-		impl[i] = Build(v)
+		if c.Share && i == 0 {
+			impl[i] = BuildSharing(v)
+			st.Count("shared_instances_in_a")
+		} else {
+			impl[i] = Build(v)
+		}
 		s, err := TakeIdentSnap(impl[i])
 		if err != nil {
 			return err
